@@ -114,14 +114,51 @@ func checkSeq(s *sys, who string, kind string, recv []sw.Recv, join int, attache
 			continue
 		}
 		if fmt.Sprint(got) != fmt.Sprint(want) {
-			add("gap", "live run of publisher %d is %v, but the publisher sent %v in that span (something skipped)", inc, got, want)
-			continue
+			// header messages (metadata, sequence headers) delivered while the consumer is still
+			// gated on a key frame belong to its start-up prologue: the contiguous run is the
+			// maximal contiguous suffix, and everything before it must be such a header
+			sfx := len(got) - 1
+			for sfx > 0 {
+				ok := true
+				for i := got[sfx-1] + 1; i < got[sfx]; i++ {
+					if P[i].Inc == inc && forwardable(P[i]) {
+						ok = false
+					}
+				}
+				if !ok {
+					break
+				}
+				sfx--
+			}
+			bad := -1
+			for k := 0; k < sfx; k++ {
+				switch P[got[k]].Kind {
+				case "meta", "metasdf", "vsh", "vsh2", "ash":
+				default:
+					bad = got[k]
+				}
+			}
+			if bad >= 0 {
+				add("gap", "live run of publisher %d is %v, but the publisher sent %v in that span (something skipped after media #%d had been delivered)", inc, got, want, bad)
+				continue
+			}
+			lo = got[sfx]
 		}
 		// the run ends only when the consumer or the publisher leaves: it must reach the last
 		// message of the incarnation, up to what merge-write may still hold back
 		stillRunning := attached || inc < s.X.Inc || !s.X.PubAlive
 		_ = stillRunning
-		if attached {
+		mediaStarted := false
+		for _, i := range got {
+			switch P[i].Kind {
+			case "meta", "metasdf", "vsh", "vsh2", "ash":
+			default:
+				mediaStarted = true
+			}
+		}
+		// a consumer that has so far received only headers may still be gated on a key frame (C02
+		// decides whether that gate is justified); the run must keep up once media has started
+		if attached && mediaStarted {
 			pend := 0
 			for i := hi + 1; i <= lastOfInc; i++ {
 				if P[i].Inc == inc && forwardable(P[i]) {
